@@ -839,6 +839,10 @@ impl<'a> Searcher<'a> {
         buffer_data: Option<&Vec<HashMap<String, String>>>,
         column_expr: &Expr,
     ) -> Variant {
+        if let Some(ref value) = column_expr.val {
+            return Variant::from_signed_string(&value, column_expr.minus);
+        }
+
         let column_expr_str = column_expr.to_string();
 
         if file_map.contains_key(&column_expr_str) {
@@ -868,10 +872,6 @@ impl<'a> Searcher<'a> {
             } else {
                 return Variant::empty(VariantType::String);
             }
-        }
-
-        if let Some(ref value) = column_expr.val {
-            return Variant::from_signed_string(&value, column_expr.minus);
         }
 
         let result;
